@@ -49,6 +49,9 @@ pub enum OpKind {
     Fold(usize),
     Values,
     IdsValues,
+    /// `values().nth(k)` / `ids_and_values().nth(k)`: std's default `nth` over the wrappers' `next`
+    ValuesNth(usize),
+    IdsValuesNth(usize),
     Skip,
     Len,
     HasMore,
@@ -313,6 +316,14 @@ fn parse_op(text: &str, ln: usize) -> Result<Op, String> {
         "idsvalues" => {
             argc(0)?;
             OpKind::IdsValues
+        }
+        "vnth" => {
+            argc(1)?;
+            OpKind::ValuesNth(num(toks[1], "k", ln)?)
+        }
+        "ivnth" => {
+            argc(1)?;
+            OpKind::IdsValuesNth(num(toks[1], "k", ln)?)
         }
         "skip" => {
             argc(0)?;
